@@ -113,6 +113,11 @@ class Emitter:
         f = ast.unparse(node.func)
         a = node.args
         R = self.backend == "R"
+        # --- KM additions (hook): helper calls, np.asarray([x]), np.arctan2
+        r = _km_call(self, node, f, a)
+        if r is not None:
+            return r
+        # --- end KM additions
         un = {
             "np.sqrt": "sqrt" if R else "csqrt O", "math.sqrt": "sqrt" if R else "csqrt O",
             "np.exp": "exp" if R else "cexp O", "math.exp": "exp" if R else "cexp O",
@@ -197,6 +202,11 @@ class Emitter:
                 return self.consts[full]
             raise TranslateError("attribute %s" % full)
         if isinstance(node, ast.Subscript):
+            # --- KM additions (hook): x[mask] inside a masked assignment, helper(...)[0]
+            r = _km_subscript(self, node)
+            if r is not None:
+                return r
+            # --- end KM additions
             base = ast.unparse(node.value)
             idx = ast.unparse(node.slice)
             nm = "%s_%s" % (_san(base), _san(idx))
@@ -344,9 +354,13 @@ def find_function(tree, qual):
     return node
 
 
-def translate(path, slices, backend, consts=None):
+def translate(path, slices, backend, consts=None, **km):
     """slices: list of dicts {name, func, target, occ (0-based, default 0), params [..], inline [..]}.
     Returns Coq text with one definition per slice."""
+    # --- KM additions (hook): keyword options select the SSA / masked-assignment / Section-variable path
+    if km:
+        return _km_translate(path, slices, backend, consts, **km)
+    # --- end KM additions
     src = open(path).read()
     tree = ast.parse(src)
     _annotate_float_text(tree, src)
@@ -420,3 +434,281 @@ def translate(path, slices, backend, consts=None):
         head = "From Coq Require Import Reals.\nOpen Scope R_scope.\n"
         tail = "\n"
     return head + "\n".join(defs) + tail
+
+
+# =============================================================================================
+# --- KM additions (begin): used by harness/kmslices.py (property C19); R backend only.
+#
+#  * translate(..., ssa=True, helpers={py_func: gen_name}, section_vars=[(name, type)], prelude="...")
+#      - proper SSA substitution: every assignment remembers the environment *at assignment time*
+#        (the base translator substitutes in the environment at the target, which loops on
+#        `x = rho*cos(t)` following `rho = sqrt(x**2 + ...)`);
+#      - `func: "<module>"` slices module-level constants (von_karman = 0.4);
+#      - slice kind "masked": `v = np.zeros_like(..)` / `v = w.copy()` followed by masked assignments
+#        `v[mask] = e` (mask a name bound to a comparison, or an inline comparison), each possibly nested
+#        in `if`/`elif`/`else` on scalar comparisons, becomes nested `if .. then .. else ..`;
+#        inside `e`, `a[mask]` is the element `a`;
+#      - slice kind "iftest": the test of an early-exit `if <text>: ... return <expr>` becomes a Coq bool;
+#      - slice kind "cond": a boolean mask (`a < b`, `np.logical_and(c1, c2)`) becomes a Coq bool;
+#      - `helper(np.asarray([a]), ...)[0]` and `helper(a, ...)` for helpers defined by earlier slices
+#        become `(gen_helper a ...)`; the slice option `signature: True` checks that the declared
+#        parameters are exactly the Python function's parameters, in order;
+#      - slice option `unique: True`: the target is assigned exactly once in the function (so that the
+#        by-name plumbing between step slices is sound);
+#      - `np.arctan2(y, x)` -> `(atan2 y x)` (defined in the prelude, BL.Model.KM);
+#      - `spsp.gamma` -> `Gamma`, a Section variable of the generated file.
+#  Everything else still raises TranslateError.
+
+
+def _km_call(em, node, f, a):
+    if em.backend != "R":
+        return None
+    helpers = getattr(em, "helpers", None) or {}
+    if f in helpers and not node.keywords:
+        args = []
+        for x in a:
+            args.append(em.expr(_km_unwrap_asarray(x)))
+        want = getattr(em, "helper_arity", {}).get(f)
+        if want is not None and want != len(args):
+            raise TranslateError("helper %s called with %d arguments, defined with %d" % (f, len(args), want))
+        return "(%s %s)" % (helpers[f], " ".join(args))
+    if f == "np.arctan2" and len(a) == 2 and not node.keywords and getattr(em, "km", False):
+        return "(atan2 %s %s)" % (em.expr(a[0]), em.expr(a[1]))
+    return None
+
+
+def _km_unwrap_asarray(x):
+    """np.asarray([e]) -> e"""
+    if (isinstance(x, ast.Call) and ast.unparse(x.func) in ("np.asarray", "np.array") and len(x.args) == 1
+            and not x.keywords and isinstance(x.args[0], ast.List) and len(x.args[0].elts) == 1):
+        return x.args[0].elts[0]
+    return x
+
+
+def _km_subscript(em, node):
+    if not getattr(em, "km", False):
+        return None
+    helpers = getattr(em, "helpers", None) or {}
+    # helper(...)[0]
+    if (isinstance(node.value, ast.Call) and ast.unparse(node.value.func) in helpers
+            and isinstance(node.slice, ast.Constant) and node.slice.value == 0):
+        return em.expr(node.value)
+    # a[mask] inside a masked assignment with that very mask
+    mask = getattr(em, "mask_text", None)
+    if mask is not None and ast.unparse(node.slice) == mask and isinstance(node.value, ast.Name):
+        return em.name(node.value.id)
+    return None
+
+
+def _km_inline_ssa(em, n):
+    node, snap = em.env[n]
+    saved = em.env
+    em.env = snap
+    try:
+        return em.expr(node)
+    finally:
+        em.env = saved
+
+
+def _km_walk(stmts, guards=()):
+    """all assignments in source order with the chain of enclosing `if` tests:
+    yields (target_node, value_node, guards) where guards = ((test_node, polarity), ...).
+    Tuple assignments are split.  Loop bodies are walked once (the loop variable stays a free name)."""
+    for st in stmts:
+        if isinstance(st, ast.Assign):
+            if len(st.targets) != 1:
+                raise TranslateError("chained assignment")
+            t = st.targets[0]
+            if isinstance(t, ast.Tuple):
+                if not (isinstance(st.value, ast.Tuple) and len(t.elts) == len(st.value.elts)):
+                    # e.g. `a, b = f(...)`: the names become opaque (cannot be inlined)
+                    for e in t.elts:
+                        yield e, None, guards
+                    continue
+                for a_, b_ in zip(t.elts, st.value.elts):
+                    yield a_, b_, guards
+            else:
+                yield t, st.value, guards
+        elif isinstance(st, ast.AugAssign):
+            yield st.target, None, guards
+        elif isinstance(st, ast.If):
+            yield from _km_walk(st.body, guards + ((st.test, True),))
+            yield from _km_walk(st.orelse, guards + ((st.test, False),))
+        elif isinstance(st, (ast.For, ast.While, ast.With, ast.Try)):
+            for attr in ("body", "orelse", "finalbody"):
+                sub = getattr(st, attr, None)
+                if isinstance(sub, list):
+                    yield from _km_walk(sub, guards)
+        elif isinstance(st, (ast.FunctionDef, ast.ClassDef)):
+            continue
+
+
+def _km_cond(em, node):
+    """comparison or np.logical_and of comparisons -> Coq bool"""
+    if isinstance(node, ast.Call) and ast.unparse(node.func) == "np.logical_and" and len(node.args) == 2 and not node.keywords:
+        return "(if %s then %s else false)" % (_km_sumbool(em, node.args[0]), _km_cond(em, node.args[1]))
+    return "(if %s then true else false)" % _km_sumbool(em, node)
+
+
+def _km_sumbool(em, node):
+    if isinstance(node, ast.Name) and node.id in em.env:
+        v = em.env[node.id]
+        if isinstance(v, tuple):
+            nd, snap = v
+            saved = em.env
+            em.env = snap
+            try:
+                return _km_sumbool(em, nd)
+            finally:
+                em.env = saved
+    return em.cond(node)
+
+
+def _km_guarded(em, guards, then, acc):
+    out = then
+    for test, pol in reversed(guards):
+        c = em.cond(test)
+        out = "(if %s then %s else %s)" % ((c, out, acc) if pol else (c, acc, out))
+    return out
+
+
+def _km_target_name(t):
+    if isinstance(t, ast.Name):
+        return t.id
+    return ast.unparse(t)
+
+
+def _km_translate(path, slices, backend, consts=None, ssa=True, helpers=None, section_vars=None, prelude="",
+                  section_name="Gen"):
+    if backend != "R":
+        raise TranslateError("KM options need the R backend")
+    src = open(path).read()
+    tree = ast.parse(src)
+    _annotate_float_text(tree, src)
+    helpers = dict(helpers or {})
+    arity = {}
+    defs = []
+    for sl in slices:
+        fn = tree if sl["func"] == "<module>" else find_function(tree, sl["func"])
+        kind = sl.get("kind", "expr")
+        occ = sl.get("occ", 0)
+        allc = dict(consts or {}, **sl.get("consts", {}))
+        if sl.get("signature"):
+            if sl["func"] == "<module>":
+                raise TranslateError("signature on module slice")
+            pyargs = [a_.arg for a_ in fn.args.args]
+            if pyargs != list(sl["params"]):
+                raise TranslateError("slice %s: declared parameters %r are not the signature %r of %s" % (sl["name"], sl["params"], pyargs, sl["func"]))
+            arity[sl["func"]] = len(pyargs)
+        if sl.get("unique"):
+            cnt = sum(1 for t, v, g in _km_walk(fn.body) if _km_target_name(t) == sl["target"])
+            if cnt != 1:
+                raise TranslateError("slice %s: %s is assigned %d times in %s (expected exactly once)" % (sl["name"], sl["target"], cnt, sl["func"]))
+        env = {}
+        em = Emitter(backend, env, sl.get("inline", []), consts=allc)
+        em.km = True
+        em.helpers = helpers
+        em.helper_arity = arity
+        ty = "R"
+        body = None
+        if kind in ("expr", "cond"):
+            seen = -1
+            for t, v, g in _km_walk(fn.body):
+                nm = _km_target_name(t)
+                if nm == sl["target"]:
+                    seen += 1
+                    if seen == occ:
+                        if v is None:
+                            raise TranslateError("slice %s: target has no translatable right-hand side" % sl["name"])
+                        em.env = env
+                        if kind == "cond":
+                            ty = "bool"
+                            if isinstance(t, ast.Subscript) and isinstance(t.slice, ast.Compare) and sl.get("mask_of_target"):
+                                body = _km_cond(em, t.slice)
+                            else:
+                                body = _km_cond(em, v)
+                        else:
+                            body = em.expr(v)
+                        break
+                if v is not None:
+                    env[nm] = (v, dict(env))
+                else:
+                    env.pop(nm, None)
+            if body is None:
+                if kind == "cond" and sl.get("mask_of_target"):
+                    pass
+                raise TranslateError("slice %s: assignment #%d to %s not found in %s" % (sl["name"], occ, sl["target"], sl["func"]))
+        elif kind == "masked":
+            acc = None
+            nmask = 0
+            for t, v, g in _km_walk(fn.body):
+                nm = _km_target_name(t)
+                if isinstance(t, ast.Name) and nm == sl["target"]:
+                    if acc is not None:
+                        raise TranslateError("slice %s: %s re-initialised" % (sl["name"], nm))
+                    if g:
+                        raise TranslateError("slice %s: conditional initialisation" % sl["name"])
+                    if isinstance(v, ast.Call) and ast.unparse(v.func) == "np.zeros_like" and len(v.args) == 1:
+                        kws = {k_.arg: ast.unparse(k_.value) for k_ in v.keywords}
+                        if kws not in ({}, {"dtype": "float"}, {"dtype": "np.float64"}):
+                            raise TranslateError("slice %s: zeros_like keywords %r" % (sl["name"], kws))
+                        acc = "0"
+                    elif (isinstance(v, ast.Call) and isinstance(v.func, ast.Attribute) and v.func.attr == "copy"
+                          and not v.args and isinstance(v.func.value, ast.Name)):
+                        em.env = env
+                        acc = em.name(v.func.value.id)
+                    else:
+                        raise TranslateError("slice %s: initialisation %s not accepted" % (sl["name"], ast.unparse(v) if v is not None else "?"))
+                    continue
+                if isinstance(t, ast.Subscript) and isinstance(t.value, ast.Name) and t.value.id == sl["target"]:
+                    if acc is None:
+                        raise TranslateError("slice %s: masked assignment before initialisation" % sl["name"])
+                    if v is None:
+                        raise TranslateError("slice %s: augmented masked assignment" % sl["name"])
+                    em.env = env
+                    em.mask_text = ast.unparse(t.slice)
+                    c = _km_sumbool(em, t.slice)
+                    rhs = em.expr(v)
+                    em.mask_text = None
+                    acc = _km_guarded(em, g, "(if %s then %s else %s)" % (c, rhs, acc), acc)
+                    nmask += 1
+                    continue
+                if v is not None:
+                    env[nm] = (v, dict(env))
+                else:
+                    env.pop(nm, None)
+            if acc is None or nmask == 0:
+                raise TranslateError("slice %s: no masked assignments to %s in %s" % (sl["name"], sl["target"], sl["func"]))
+            body = acc
+        elif kind == "iftest":
+            # the test of the occ-th `if <target text>:` whose body ends in `return` (an early exit)
+            seen = -1
+            for st in ast.walk(fn):
+                if isinstance(st, ast.If) and ast.unparse(st.test) == sl["target"]:
+                    seen += 1
+                    if seen == occ:
+                        if not isinstance(st.body[-1], ast.Return):
+                            raise TranslateError("slice %s: `if %s` does not end in return" % (sl["name"], sl["target"]))
+                        if sl.get("returns") is not None and ast.unparse(st.body[-1].value) != sl["returns"]:
+                            raise TranslateError("slice %s: early exit returns %s, expected %s" % (sl["name"], ast.unparse(st.body[-1].value), sl["returns"]))
+                        ty = "bool"
+                        body = _km_cond(em, st.test)
+                        break
+            if body is None:
+                raise TranslateError("slice %s: `if %s` not found in %s" % (sl["name"], sl["target"], sl["func"]))
+        else:
+            raise TranslateError("slice kind %r" % kind)
+        if sorted(em.free) != sorted(sl["params"]):
+            raise TranslateError("slice %s: free names %r differ from the declared parameters %r" % (sl["name"], sorted(em.free), sorted(sl["params"])))
+        ps = " ".join(sl["params"])
+        defs.append("Definition gen_%s %s: %s :=\n  %s." % (sl["name"], ("(%s : R) " % ps) if ps else "", ty, body))
+        if sl.get("helper_for"):
+            helpers[sl["helper_for"]] = "gen_" + sl["name"]
+    head = "From Coq Require Import Reals.\n" + prelude + "Open Scope R_scope.\n"
+    tail = "\n"
+    if section_vars:
+        head += "Section %s.\n" % section_name + "".join("Variable %s : %s.\n" % (n_, t_) for n_, t_ in section_vars)
+        tail = "\nEnd %s.\n" % section_name
+    return head + "\n".join(defs) + tail
+# --- KM additions (end)
+# =============================================================================================
